@@ -93,6 +93,6 @@ func (e PDUSessionContainer) Encode(b []byte) (int, error) {
 	b[0] = 0x85
 	b[1] = 1
 	b[2] = e.PDUType << 4
-	b[3] = e.QoSFlowID & 0xf
+	b[3] = e.QoSFlowID & 0x3f
 	return e.Len(), nil
 }
